@@ -520,7 +520,13 @@ func RunProperty[C any](t *testing.T, p Property[C]) {
 			if p.NoteCases {
 				noteCaseInFlight(c)
 			}
+			t0 := time.Now()
 			fs, _ := ev.filterKnown(safeRun(p, c, ev))
+			if d := time.Since(t0); d > 3*time.Second && os.Getenv("VERIF_SLOW") != "" {
+				b, _ := json.Marshal(c)
+				os.WriteFile(fmt.Sprintf("/tmp/slow-%s-%d.json", p.ID, ev.invocations), b, 0644)
+				fmt.Printf("SLOW-CASE %s #%d took %v (%d bytes of case)\n", p.ID, ev.invocations, d, len(b))
+			}
 			ev.invocations++
 			if len(ev.samples) == 0 && ev.invocations == 50 {
 				ev.Sample(c) // make sure the evidence shows at least one actual case
